@@ -60,6 +60,20 @@ def num_cases(rng, tier):
                 if x > 0 and x % b == 0:
                     residue_pairs.append((x // b, b))
     residue_pairs += [(b, a) for (a, b) in residue_pairs]
+    # quotient boundaries of the ratio operators: denominators chosen so that n*10^18/d is exactly q, just above and just
+    # below it, for q = 1 (one atomic unit: the smallest non-zero result), 2 and 10^18, with nominators of ragged bits
+    # wider than one limb (C08-agent16: a "below resolution" shortcut judged on the leading 64 bits of both operands)
+    quot_pairs = []
+    noms = [W64 + 12345, 34492435058212663309, 10 ** 28 + 7, rand_limbs(rng, 2) | 1, rand_limbs(rng, 3) | 1, 10 ** 40 - 1]
+    if tier == "thorough":
+        noms += [rand_limbs(rng, k) | 1 for k in (1, 2, 2, 3, 3) for _ in range(6)] + [10 ** k + 3 for k in range(19, 58, 3)]
+    for n_ in noms:
+        for q_ in (1, 2, D) if tier == "quick" else (1, 2, 3, 10, D - 1, D, D + 1):
+            d0 = n_ * D // q_
+            for d_ in (d0 - 1, d0, d0 + 1):
+                if 0 < d_ < W256 and n_ < W256:
+                    quot_pairs.append((n_, d_))
+    residue_pairs += quot_pairs
     if tier == "quick":
         pairs = zero_pairs + limb_pairs + residue_pairs + rng.sample(pairs, 260)
     else:
